@@ -1226,7 +1226,8 @@ Proof.
   intros z u H. unfold z_unit. destruct (z =? 0); [reflexivity |].
   unfold tmap, tbind, int_str.
   assert (L : (slen (show_Z (Z.abs z)) <= 4300)%nat).
-  { apply show_Z_len; [|lia]. change (Z.of_nat 4300) with 4300. lia. }
+  { apply show_Z_len; [|apply Nat.lt_0_succ]. change (Z.of_nat 4300) with 4300.
+    split; [apply Z.abs_nonneg | exact H]. }
   apply Nat.leb_le in L. unfold INT_MAX_STR_DIGITS. rewrite L. reflexivity.
 Qed.
 Lemma q_unit_int_defined : forall z u, Z.abs z < 10 ^ 15 -> is_ok (q_unit (inject_Z z) u) = true.
@@ -1282,10 +1283,33 @@ Proof.
   assert (L : forall z, Z.abs z < 10 ^ 4300 -> is_ok (dur_str_body (DW z)) = true).
   { intros z Hz. cbn [dur_str_body]. unfold tmap, tbind, int_str.
     assert (L : (slen (show_Z (Z.abs z)) <= 4300)%nat).
-    { apply show_Z_len; [|lia]. change (Z.of_nat 4300) with 4300. lia. }
+    { apply show_Z_len; [|apply Nat.lt_0_succ]. change (Z.of_nat 4300) with 4300.
+      split; [apply Z.abs_nonneg | exact Hz]. }
     apply Nat.leb_le in L. unfold INT_MAX_STR_DIGITS. rewrite L. reflexivity. }
   destruct (fully_negative _).
   - cbn [dur_abs]. unfold tmap, tbind. pose proof (L (Z.abs w)) as B. rewrite Z.abs_involutive in B.
     specialize (B H). destruct (dur_str_body _); try discriminate. reflexivity.
   - pose proof (L w H) as B. destruct (dur_str_body _); try discriminate. reflexivity.
+Qed.
+
+(* the integer-component case in closed form *)
+Theorem roundtrip_int_units : forall y mo d h mi s,
+  let x := DU y mo d (inject_Z h) (inject_Z mi) (inject_Z s) in
+  Z.abs y < 10 ^ 4300 -> Z.abs mo < 10 ^ 4300 -> Z.abs d < 10 ^ 4300 ->
+  Z.abs h < 10 ^ 15 -> Z.abs mi < 10 ^ 15 -> Z.abs s < 10 ^ 15 ->
+  single_signed x = true ->
+  exists t x', dur_str x = TOk t /\ dur_parse t = TOk x' /\ dur_eqb x' x = true /\ dur_str x' = TOk t.
+Proof.
+  intros y mo d h mi s x Hy Hmo Hd Hh Hmi Hs Hss.
+  pose proof (printable_int_units y mo d h mi s Hy Hmo Hd Hh Hmi Hs) as P. fold x in P.
+  unfold printable in P. destruct (dur_str x) as [t| | | |] eqn:E; try discriminate.
+  destruct (roundtrip_full x t Hss E) as [x' [A [B [C _]]]]. exists t, x'. auto.
+Qed.
+Theorem roundtrip_weeks : forall w, Z.abs w < 10 ^ 4300 ->
+  exists t x', dur_str (DW w) = TOk t /\ dur_parse t = TOk x' /\ dur_eqb x' (DW w) = true /\ dur_str x' = TOk t.
+Proof.
+  intros w H. pose proof (printable_weeks w H) as P.
+  unfold printable in P. destruct (dur_str (DW w)) as [t| | | |] eqn:E; try discriminate.
+  assert (Hss : single_signed (DW w) = true) by (unfold single_signed; cbn; lia).
+  destruct (roundtrip_full (DW w) t Hss E) as [x' [A [B [C _]]]]. exists t, x'. auto.
 Qed.
